@@ -407,7 +407,102 @@ SITE_TABLE = [
     ('rsbdd::<bdd_io::BDDGraph as bdd_io::dot::Labeller>::node_id', 'expect', 'R8: dot::Id::new on the constants "n_true" / "n_false" (identifier characters only; built through to_string)'),
 ]
 
-def site_table_reason(s):
+def r9_guard(F):
+    """R9, decided: the run-time statistics (`stats`, which indexes the middle of the sample vector and takes its min/max) are reached
+    only when at least one sample exists.  Every call of print_performance_results / plot_performance_results / stats from main must
+    sit under a condition that implies T > 0, where T is the bound of the loop `for _ in 0..T` that pushes one sample per iteration
+    into the vector passed on.  Returns (ok, explanation)."""
+    import flow
+    from engine_x import unwrap_pat, root_var
+    from engine_e import strip
+    binc = F.bin()
+    main = binc.ithir.get('rsbdd::main') if binc else None
+    if main is None: return False, 'main not found'
+    fl = flow.Flow(binc)
+    CH = ('rsbdd::print_performance_results', 'rsbdd::plot_performance_results', 'rsbdd::stats')
+    calls = []
+    flow.scan(fl, main['body'], {}, lambda x: x.get('k') == 'Call' and callee_name(x) in CH, calls)
+    if not calls: return False, 'no call of the statistics functions found in main'
+    # sampling loops: for _ in 0..T { .. V.push(..) .. } with exactly one unguarded push
+    loops = []
+    rng = []
+    flow.scan(fl, main['body'], {}, lambda x: x.get('k') == 'Match' and x.get('source') == 'ForLoopDesugar', rng)
+    for node, env in rng:
+        sc = strip(node['scrutinee'])
+        it = strip(sc['args'][0]) if sc['k'] == 'Call' and sc['args'] else None
+        if it is None or it['k'] != 'Adt' or canon(it['adt']) != 'std::ops::Range': continue
+        lo = [f['expr'] for f in it['fields'] if f['name'] == 'start'][0]; hi = [f['expr'] for f in it['fields'] if f['name'] == 'end'][0]
+        if fl.ev(lo, env) != ('lit', '0'): continue
+        T = fl.ev(hi, env)
+        body = None
+        for m_ in walk(node['arms'][0]['body']):
+            if m_['k'] == 'Match' and m_.get('source') == 'ForLoopDesugar':
+                for a_ in m_['arms']:
+                    p_ = unwrap_pat(a_['pat'])
+                    if p_['k'] == 'Variant' and p_['variant'] == 'Some': body = a_['body']
+                break
+        if body is None: continue
+        pushes = [x for x in walk(body) if x['k'] == 'Call' and callee_name(x) == 'std::vec::Vec::push']
+        guarded = [x for x in walk(body) if x['k'] in ('If', 'Break', 'Continue', 'Return', 'Loop') or (x['k'] == 'Match' and x.get('source') == 'Normal')]
+        if len(pushes) == 1 and not guarded: loops.append((T, root_var(pushes[0]['args'][0])))
+    if not loops: return False, 'no sampling loop `for _ in 0..T { samples.push(..) }` found'
+    # variables that stand for a sample vector W (directly, or returned in a tuple from an inlined helper block)
+    def aliases(W):
+        out = {W}
+        changed = True
+        while changed:
+            changed = False
+            for b in walk(main['body']):
+                if b['k'] != 'Block': continue
+                for st in b['stmts']:
+                    if st['k'] != 'Let' or st.get('init') is None: continue
+                    q = unwrap_pat(st['pat']); i0 = st['init']
+                    while i0['k'] in ('Use', 'NeverToAny') or (i0['k'] == 'Block' and i0['expr'] is not None): i0 = i0['source'] if i0['k'] != 'Block' else i0['expr']
+                    if q['k'] == 'Binding' and root_var(i0) in out and q['var'] not in out: out.add(q['var']); changed = True
+                    if q['k'] == 'Leaf' and 'adt' not in q and i0['k'] == 'Tuple':
+                        for sp in q['subs']:
+                            b_ = unwrap_pat(sp['pat'])
+                            if b_['k'] == 'Binding' and sp['field'] < len(i0['fields']) and root_var(i0['fields'][sp['field']]) in out and b_['var'] not in out:
+                                out.add(b_['var']); changed = True
+        return out
+    def positive(cond, T):
+        """does cond imply T > 0 ?"""
+        if cond[0] == 'logic' and cond[1] == 'And': return positive(cond[2], T) or positive(cond[3], T)
+        if cond[0] == 'bin' and cond[2] == T and cond[3][0] == 'lit':
+            try: k = int(cond[3][1])
+            except (TypeError, ValueError): return False
+            return (cond[1] == 'Gt' and k >= 0) or (cond[1] == 'Ge' and k >= 1) or (cond[1] == 'Ne' and k == 0)
+        if cond[0] == 'bin' and cond[3] == T and cond[2][0] == 'lit':
+            try: k = int(cond[2][1])
+            except (TypeError, ValueError): return False
+            return (cond[1] == 'Lt' and k >= 0) or (cond[1] == 'Le' and k >= 1)
+        if cond[0] == 'call' and cond[1] == 'std::option::Option::is_some_and' and len(cond[2]) == 2 and cond[2][1][0] == 'closure':
+            # opt.is_some_and(|r| r > 0) with T = opt.unwrap_or(_): opt is Some(r) with r > 0, so T = r > 0
+            ct = binc.ithir.get(cond[2][1][1])
+            if ct is not None and len(ct['params']) == 2 and T[0] == 'call' and T[1] == 'std::option::Option::unwrap_or' and T[2][0] == cond[2][0]:
+                pv = unwrap_pat(ct['params'][1]['pat']).get('var')
+                b = fl.ev(ct['body'], {pv: ('bound', 0)})
+                return positive(b, ('bound', 0))
+        return False
+    for node, env in calls:
+        arg = root_var(node['args'][0]) if node['args'] else None
+        ok = False
+        for T, W in loops:
+            if arg is not None and arg in aliases(W) and any(pol and positive(c, T) for c, pol in env.get('#conds', ())): ok = True
+        if not ok:
+            return False, 'the call of %s at %s is not under a condition that implies at least one sample (conditions: %s)' % (
+                callee_name(node).split('::')[-1], node.get('loc'), [(flow.show(c)[:80], p) for c, p in env.get('#conds', ())])
+    return True, 'R9: every call of the statistics functions is under a condition implying T > 0 for the loop `for _ in 0..T` that pushes the samples (%d call(s), %d sampling loop(s))' % (len(calls), len(loops))
+
+R9_STATE = [None]
+
+def site_table_reason(s, F=None):
+    if s.fn == 'rsbdd::stats' and s.what.startswith(('Index', 'expect', 'BoundsCheck')):
+        if F is None: return None
+        if R9_STATE[0] is None or R9_STATE[0][0] is not F:
+            R9_STATE[0] = (F, r9_guard(F))
+        ok, why = R9_STATE[0][1]
+        return why if ok else None
     for (fn, what, reason) in SITE_TABLE:
         if (s.fn == fn or (fn.endswith('{closure#') and s.fn.startswith(fn))) and s.what.startswith(what):
             return 'site table: ' + reason
